@@ -112,6 +112,16 @@ CHECKS = {
          "order is run; read assignments, corrected BED and ungrouped gene/transcript count and TPM tables must be equal as multisets of lines.",
          "Trusted: tree comparison; the BAM writer (pysam).",
          "DESIGN.md §3 C12"),
+ "C05": ("exploration",
+         "bounded-exhaustive enumeration of all alignment clusters (<=3/4 alignments on a coordinate grid) through the real region splitter and both alignment storages at scaled constants; pipeline runs of coverage families at real constants",
+         "Every cluster of <=3 (quick) / <=4 (thorough) alignments with start <=20/24 and length in {2,5,9,18} that forms one cluster is pushed "
+         "through the real split_coverage_regions, InMemoryAlignmentStorage and BAMAlignmentStorage (fetch with htslib overlap semantics) under "
+         "three scaled constant sets: regions must tile the cluster and every alignment must be returned for some region by both storages. At "
+         "real constants, pipeline runs of single-bin pile-ups (>=1024 reads), >32 kb loci with coverage valleys at every offset around a bin "
+         "boundary, long sparse loci of 127..258 bins with short reads in the last bin, with and without annotation, default and --high_memory: "
+         "reported read ids == input reads passing the documented filters, no identical records, log statistics == per-flag record counts.",
+         "Trusted: scaled constants preserve behaviour (constants used only in comparisons and one division); fake BAM fetch semantics.",
+         "DESIGN.md §3 C05"),
 }
 
 NOT_YET = {}
